@@ -88,6 +88,22 @@ def generate(seed, index, tier):
                     f['attrs']['null'] = False      # default, explicit
                     hit = True
         special = 'explicit_defaults' if hit else None
+    elif r < 0.47:
+        # per-type defaults: db_index of a ForeignKey / OneToOneField
+        # defaults to True, of everything else to False; toggling it is a
+        # real difference in both cases
+        target = copy.deepcopy(sts[0]['apps']['va']['models'])
+        fks = [f for m in target for f in m['fields']
+               if f['kind'] in ('ForeignKey', 'OneToOne')]
+        if fks:
+            f = rng.choice(fks)
+            if f['attrs'].get('db_index', True):
+                f['attrs']['db_index'] = False
+            else:
+                f['attrs'].pop('db_index')
+            special = 'fk_db_index'
+        else:
+            target = copy.deepcopy(sts[1]['apps']['va']['models'])
     scn['target'] = target
     scn['special'] = special
     scn['h1'], scn['h2'] = rng.sample([0, 1, 2], 2)
